@@ -841,11 +841,18 @@ func (o Obj) Doc() M {
 			}
 			spec["policyTypes"] = t
 		}
+		// an empty rule list is sometimes written out ("egress: []" is a non-nil empty slice after decoding; it means
+		// no rule, exactly like an absent field - also for the defaulting of policyTypes)
+		h := strHash(n.NS + "/" + n.Name)
 		if len(n.Ingress) > 0 {
 			spec["ingress"] = jNPRules(n.Ingress, "from")
+		} else if h%3 == 0 {
+			spec["ingress"] = []M{}
 		}
 		if len(n.Egress) > 0 {
 			spec["egress"] = jNPRules(n.Egress, "to")
+		} else if h%2 == 0 {
+			spec["egress"] = []M{}
 		}
 		md := M{"name": n.Name, "namespace": n.NS}
 		if n.UID != "" {
